@@ -818,9 +818,47 @@ Proof.
   intro HR. unfold store_cookie, store_ok. rewrite too_long_negfits.
   destruct (negb (cookie_fits c)); [exact HR|].
   destruct HR as [Hf|[Hp [Hne Hinfo]]].
-  - destruct (os_last_ok ost); left; [exact Hf|reflexivity].
-  - destruct (os_last_ok ost) eqn:Hl; [|left; reflexivity].
-    right. cbn. split; [rewrite Hp; reflexivity|]. split; [reflexivity|]. intros _. exact (Hinfo eq_refl).
+  - destruct (os_last_ok ost); [destruct (8 <=? Z.of_nat (length (os_pool ost)))|]; left; try exact Hf; reflexivity.
+  - unfold max_stored_cookies. rewrite Hp.
+    destruct (os_last_ok ost) eqn:Hl.
+    + destruct (8 <=? Z.of_nat (length (os_pool ost))).
+      * right. split; [exact Hp|]. split; [intros _; exact Hl|intros _; exact (Hinfo eq_refl)].
+      * right. cbn. split; [reflexivity|]. split; [reflexivity|]. intros _. exact (Hinfo eq_refl).
+    + destruct (8 <=? Z.of_nat (length (os_pool ost))); left; reflexivity.
+Qed.
+
+(* StoreCookie never takes the pool beyond MaxStoredCookies; FetchData installs the cookies of
+   the exchange whatever their number and otherwise only shrinks the pool *)
+Lemma store_cookie_cap st c : Z.of_nat (length (k_cookies st)) <= 8 ->
+  Z.of_nat (length (k_cookies (store_cookie st c))) <= 8.
+Proof.
+  intro H. unfold store_cookie, max_stored_cookies. destruct (cookie_too_long c); [exact H|].
+  destruct (8 <=? Z.of_nat (length (k_cookies st))) eqn:E; [exact H|].
+  apply Z.leb_gt in E. cbn [k_cookies set_cookies]. rewrite app_length. cbn [length]. lia.
+Qed.
+
+Lemma store_cookie_no_growth_above st c : 8 <= Z.of_nat (length (k_cookies st)) -> store_cookie st c = st.
+Proof.
+  intro H. unfold store_cookie, max_stored_cookies. destruct (cookie_too_long c); [reflexivity|].
+  apply Z.leb_le in H. rewrite H. reflexivity.
+Qed.
+
+Fixpoint stores (st : kdata) (cs : list bytes) : kdata :=
+  match cs with [] => st | c :: r => stores (store_cookie st c) r end.
+
+Lemma stores_cap cs : forall st, Z.of_nat (length (k_cookies st)) <= 8 ->
+  Z.of_nat (length (k_cookies (stores st cs))) <= 8.
+Proof. induction cs as [|c cs IH]; intros st H; [exact H|]. cbn [stores]. apply IH. apply store_cookie_cap. exact H. Qed.
+
+Lemma fetch_pool_after quic ex st p :
+  k_cookies (fst (fetch_data quic ex st p)) = tl (k_cookies st) \/
+  (k_cookies st = [] /\ (k_cookies (fst (fetch_data quic ex st p)) = [] \/
+     exists d, exchange_keys_of quic ex st p = (d, 0) /\ k_cookies (fst (fetch_data quic ex st p)) = tl (k_cookies d))).
+Proof.
+  unfold fetch_data. destruct (k_cookies st) as [|c rest] eqn:E; [|left; reflexivity].
+  right. split; [reflexivity|]. destruct (exchange_keys_of quic ex st p) as [d e]. destruct (e =? 0) eqn:He.
+  - apply Z.eqb_eq in He. subst e. right. exists d. split; reflexivity.
+  - left. reflexivity.
 Qed.
 
 Definition mop_ok (m : mop) : Prop := match m with MFetch _ ex => exporter_ok ex | MStore _ => True end.
@@ -1269,4 +1307,96 @@ Proof.
   unfold cand_ok. cbn [fst snd].
   destruct (oracle_end_gen quic ms kzero os0 Rel_init Hok) as [ost' [He HR]]. rewrite He.
   apply final_ok_Rel. exact HR.
+Qed.
+
+(* ---------- fixed-size records with bodies of another length than 2 (known finding) ----------
+   ReadData reads exactly two bytes of a next-protocol, algorithm, port or error record whatever
+   its length field says; with another length every later record boundary moves.  Witness: the
+   algorithm record lists 15 and 1 (4 bytes); the bytes 00 01 and the header of the critical
+   error record that follows are read as a next-protocol record, the error code and the header of
+   an empty unrecognised record as another one, and the exchange succeeds. *)
+Definition ex_ctx : exporter := fun _ ctx _ => Some ctx.
+
+Definition sc_hidden : script :=
+  {| sc_mode := 0; sc_alpn := [ntske1];
+     sc_recs := [ {| r_type := 1; r_crit := true; r_body := [0; 0] |};
+                  {| r_type := 4; r_crit := true; r_body := [0; 15; 0; 1] |};
+                  {| r_type := 2; r_crit := true; r_body := [0; 1] |};
+                  {| r_type := 16384; r_crit := false; r_body := [] |};
+                  {| r_type := 5; r_crit := false; r_body := [7; 7; 7; 7] |};
+                  {| r_type := 0; r_crit := true; r_body := [] |} ];
+     sc_tail := []; sc_cut := 100; sc_host := [49] |}.
+
+Lemma ex_ctx_ok : exporter_ok ex_ctx.
+Proof. exists ctx_c2s, ctx_s2c. split; reflexivity. Qed.
+
+Lemma hidden_witness :
+  sc_framed sc_hidden = true /\
+  (exists r, In r (delivered (sc_recs sc_hidden) (sc_cut sc_hidden)) /\ r_type r = 2 /\ r_crit r = true) /\
+  stream_accepted (sc_recs sc_hidden) (sc_cut sc_hidden) = false /\
+  exchange_keys ex_ctx (peer_of_script sc_hidden)
+  = ({| k_c2s := ctx_c2s; k_s2c := ctx_s2c; k_server := [49]; k_port := 123; k_cookies := [[7; 7; 7; 7]]; k_algo := 15 |}, 0) /\
+  exchange_keys_quic ex_ctx kzero (peer_of_script sc_hidden)
+  = ({| k_c2s := ctx_c2s; k_s2c := ctx_s2c; k_server := [49]; k_port := 10123; k_cookies := [[7; 7; 7; 7]]; k_algo := 15 |}, 0).
+Proof.
+  split; [vm_compute; reflexivity|]. split.
+  - exists {| r_type := 2; r_crit := true; r_body := [0; 1] |}. split; [vm_compute; tauto|split; reflexivity].
+  - repeat split; vm_compute; reflexivity.
+Qed.
+
+Lemma error_record_hidden_refuted :
+  ~ (forall quic ex st sc, sc_framed sc = true -> exporter_ok ex ->
+       snd (exchange_keys_of quic ex st (peer_of_script sc)) = 0 ->
+       stream_accepted (sc_recs sc) (sc_cut sc) = true).
+Proof.
+  intro H. destruct hidden_witness as [Hf [_ [Hna [Hx _]]]].
+  specialize (H false ex_ctx kzero sc_hidden Hf ex_ctx_ok). cbn [exchange_keys_of] in H. rewrite Hx in H.
+  specialize (H eq_refl). rewrite Hna in H. discriminate H.
+Qed.
+
+(* what does hold: a strict script (fixed-size records with 2-byte bodies) is framed, and for it
+   the code's parse is the framed parse (read_script), so the framed oracle accepts the model *)
+Lemma strict_framed sc : sc_strict sc = true -> sc_framed sc = true.
+Proof.
+  unfold sc_strict, sc_framed. intro H. apply andb_true_iff in H as [H1 H2]. rewrite H2, andb_true_r.
+  apply forallb_forall. intros r Hin. rewrite forallb_forall in H1. specialize (H1 r Hin).
+  unfold rec_canonical in H1. unfold rec_framed. apply andb_true_iff in H1 as [H1 _]. exact H1.
+Qed.
+
+Definition mop_strict (m : mop) : Prop := match m with MFetch sc _ => sc_strict sc = true | MStore _ => True end.
+
+Lemma framed_step_model quic ex st sc : sc_strict sc = true -> exporter_ok ex ->
+  framed_step_ok sc (snd (model_fetch quic ex st sc)) = true.
+Proof.
+  intros Hs Hex. unfold framed_step_ok, model_fetch, fetch_data.
+  destruct (k_cookies st) as [|c rest].
+  - pose proof (exchange_strict_of quic ex st sc Hs Hex) as Hstr.
+    destruct (exchange_keys_of quic ex st (peer_of_script sc)) as [d e].
+    destruct (e =? 0) eqn:He.
+    + apply Z.eqb_eq in He. subst e. cbn [snd] in Hstr.
+      destruct (stream_accepted (sc_recs sc) (sc_cut sc)).
+      * destruct (sc_framed sc && _ && _); reflexivity.
+      * rewrite andb_false_r in Hstr. contradiction.
+    + cbn [fo_exchanged fo_err fo_data andb snd fst].
+      destruct (negb (sc_mode sc =? 1)); [destruct (peer_handshake quic sc)|];
+        cbn [snd o_conns o_err]; rewrite He, ?andb_false_r; reflexivity.
+  - cbn [fo_exchanged fo_err fo_data andb snd fst o_conns]. rewrite andb_false_r. reflexivity.
+Qed.
+
+Lemma framed_holds_strict quic ms : Forall mop_ok ms -> Forall mop_strict ms -> forall st,
+  framed_hist_ok (map op_of ms) (model_run quic st ms) = true.
+Proof.
+  induction ms as [|m ms IH]; intros Hok Hst st; [reflexivity|].
+  inversion Hok as [|? ? Hm Hms]; subst. inversion Hst as [|? ? Hs Hss]; subst.
+  destruct m as [sc ex|c]; cbn [map op_of model_run framed_hist_ok].
+  - pose proof (framed_step_model quic ex st sc Hs Hm) as Hf.
+    destruct (model_fetch quic ex st sc) as [st' o]. cbn [snd] in Hf. cbn [framed_hist_ok].
+    rewrite Hf. apply IH; assumption.
+  - apply IH; assumption.
+Qed.
+
+Theorem framed_oracle_holds_strict quic ms : Forall mop_ok ms -> Forall mop_strict ms ->
+  C20_framed_ok quic (map op_of ms) (model_run quic kzero ms) = true.
+Proof.
+  intros Hok Hst. unfold C20_framed_ok. rewrite (oracle_holds_on_model quic ms Hok), (framed_holds_strict quic ms Hok Hst kzero). reflexivity.
 Qed.
